@@ -70,7 +70,7 @@ func c10Run(ctx *core.Ctx) {
 	core.RunCases(ctx, func(emit func(c10Case)) {
 		nrep := 3
 		if ctx.Thorough() {
-			nrep = 40
+			nrep = 300
 		}
 		for rep := 0; rep < nrep; rep++ {
 			for _, pre := range []string{"fresh", "greeted", "authed", "mail", "rcpt", "bdat"} {
@@ -88,7 +88,7 @@ func c10Run(ctx *core.Ctx) {
 		}
 		crep := 8
 		if ctx.Thorough() {
-			crep = 60
+			crep = 300
 		}
 		for rep := 0; rep < crep; rep++ {
 			for _, fk := range []string{"nostarttls", "454", "garbage", "injected", "good", "goodbare", "injectedbare", "helofallbackbare"} {
